@@ -12,6 +12,9 @@ CLASSES = {
     "date": D, "time": T, "time_us": dt.time(12, 30, 45, 123456), "datetime": DT,
     "datetime_us": dt.datetime(2020, 1, 2, 12, 30, 45, 123456),
     "tuple2": "(7;8)", "tuple3": "(7;8;9)", "bracketed": "[a, b]", "dict": {"a": 1},
+    "datetime_tz": dt.datetime(2020, 1, 2, 12, 30, 45, tzinfo=dt.timezone(dt.timedelta(hours=2))),
+    "time_tz": dt.time(12, 30, 45, tzinfo=dt.timezone(dt.timedelta(hours=-5))), "inf": float("inf"), "bigint": 2 ** 70,
+    "s_int_ws": " 12 ", "s_float_exp": "1e3",
     "none": None, "empty": "", "elist": [], "edict": {},
     "list_int": [5, 6], "list_str": ["x", "y"], "list_mixed": [1, "a"], "list_s_int": ["5", "6"],
     "list_tuple2": ["(1;2)", "(3;4)"],
@@ -61,7 +64,10 @@ def facts(p, probe=True):
             f["us"] = getattr(v, "microsecond", 0) == 0
         try:
             back = dtypes.get(dtypes.set(v, d), d)
-            f["rt"] = (back == v) and (type(back) is type(v))
+            # the text the writers produce (str of the value; "(a;b)" for a tuple), read back
+            text = "(" + ";".join(v) + ")" if isinstance(v, list) else str(v)
+            back2 = dtypes.get(text, d)
+            f["rt"] = (back == v) and (type(back) is type(v)) and (back2 == v) and (type(back2) is type(v))
         except Exception:
             f["rt"] = False
         vals.append(f)
@@ -141,7 +147,7 @@ def history_cases(n_hist, depth, rng):
 
 SC = ["int", "int0", "negint", "float_i", "float_f", "true", "false", "str", "text", "s_int", "s_float", "s_bool",
       "s_date", "s_time", "s_datetime", "date", "time", "time_us", "datetime", "datetime_us", "tuple2", "tuple3",
-      "bracketed", "dict", "none", "empty", "elist", "edict"]
+      "bracketed", "dict", "none", "empty", "elist", "edict", "datetime_tz", "time_tz", "inf", "bigint", "s_int_ws", "s_float_exp"]
 LC = ["list_int", "list_str", "list_mixed", "list_s_int", "list_tuple2"]
 DTS = list(NATIVE)
 
